@@ -437,6 +437,12 @@ class POP3CommandHandler:
 
         msg_bytes = msg_as_bytes(msg)
         size = len(msg_bytes)
+
+        # Remember the size we announce: LIST and STAT must keep reporting it
+        # for the rest of the session, even if the message is expunged by some
+        # other client before they are asked.
+        #
+        self.msg_sizes.setdefault(n, size)
         msg_bytes = dot_stuff(msg_bytes)
 
         # The terminating "." goes on a line of its own. If the message
